@@ -42,7 +42,7 @@ class C18(Prop):
         "PrefVerif.Specs.spOnSubset_iff",
     ]
     rule = ("strict complete profiles with 1-7 alternatives (odd and even, ids from 0 or 1 or sparse), 1-4 distinct orders, random and planted "
-            "(union of single-peaked blocks), every bound k from 1 to m; non-trivial = >= 2 orders and >= 3 alternatives")
+            "(union of single-peaked blocks), every bound k from 1 to m; non-trivial = >= 2 orders and >= 3 alternatives; 30 % of the cases carry multiplicities and 25 % are built in two stages on one object through the append_* entry points (vote_map / order_list / order / int64 and object order_array, part of a stored order's multiplicity held back) with a query in between (the grown object is used for every call)")
     budget = {"quick": 500, "thorough": 20000}
     anchors = [("preflibtools.properties.subdomains.ordinal.singlepeaked.k_alternative_partition", n) for n in
                ("k_alt_partition_approx", "k_alternative_partition_brut_force", "dfs", "extend",
